@@ -1,0 +1,50 @@
+//go:build verif
+
+package runtime
+
+// Contract file: comments only, parsed by /verif/cmd/govc (see /verif/DESIGN.md §2.2).
+// It contains no executable code; without the build tag it is not even compiled.
+
+// ---------------------------------------------------------------- request.go (C17)
+
+//@ func newPeekingReader
+//@ ensures r == nil ==> result == nil
+//@ ensures r != nil ==> result != nil && fresh(result) && result.orig == r && result.underlying != nil
+
+//@ func (*peekingReader).HasContent
+//@ watch B = invoke *.Buffered
+//@ watch P = invoke *.Peek
+//@ requires p != nil ==> p.underlying != nil
+//@ ensures p == nil ==> !result && calls(B) == 0 && calls(P) == 0
+//@ ensures p != nil ==> calls(B) == 1 && recv(B,0) == old(p.underlying) && (ret(B,0,0) > 0 ==> result && calls(P) == 0)
+//@ ensures p != nil && ret(B,0,0) <= 0 ==> calls(P) == 1 && recv(P,0) == old(p.underlying) && arg(P,0,0) == 1 && (result <==> (ret(P,0,1) == nil && len(ret(P,0,0)) > 0))
+//@ ensures p != nil ==> p.underlying == old(p.underlying) && p.orig == old(p.orig)
+//@ assigns \opaque
+
+//@ func (*peekingReader).Read
+//@ watch U = invoke *.Read
+//@ ensures p == nil ==> result0 == 0 && result1 == io.EOF && calls(U) == 0
+//@ ensures p != nil && old(p.underlying) == nil ==> result0 == 0 && result1 == io.ErrUnexpectedEOF && calls(U) == 0
+//@ ensures p != nil && old(p.underlying) != nil ==> calls(U) == 1 && recv(U,0) == old(p.underlying) && arg(U,0,0) == d && result0 == ret(U,0,0) && result1 == ret(U,0,1)
+//@ ensures p != nil ==> p.underlying == old(p.underlying) && p.orig == old(p.orig)
+//@ assigns \opaque
+
+//@ func (*peekingReader).Close
+//@ watch K = invoke *.Close
+//@ ensures p == nil ==> calls(K) == 0
+//@ ensures p != nil && old(p.underlying) == nil ==> result != nil && calls(K) == 0 && p.underlying == nil
+//@ ensures p != nil && old(p.underlying) != nil ==> p.underlying == nil && p.orig == old(p.orig)
+//@ ensures p != nil && old(p.underlying) != nil && old(p.orig) != nil ==> calls(K) == 1 && recv(K,0) == old(p.orig) && result == ret(K,0,0)
+//@ ensures p != nil && old(p.underlying) != nil && old(p.orig) == nil ==> calls(K) == 0 && result == nil
+//@ assigns p.underlying, \opaque
+
+//@ func HasBody
+//@ watch G = call (net/http.Header).Get
+//@ watch NP = call newPeekingReader
+//@ watch HC = call (*peekingReader).HasContent
+//@ requires r != nil
+//@ stable r.Body
+//@ ensures old(r.ContentLength) > 0 ==> result && calls(NP) == 0 && calls(G) == 0 && r.Body == old(r.Body)
+//@ ensures old(r.ContentLength) <= 0 ==> calls(G) == 1 && arg(G,0,0) == old(r.Header) && arg(G,0,1) == "Content-Length"
+//@ ensures old(r.ContentLength) <= 0 && ret(G,0,0) != "" ==> !result && calls(NP) == 0 && r.Body == old(r.Body)
+//@ ensures old(r.ContentLength) <= 0 && ret(G,0,0) == "" ==> calls(NP) == 1 && arg(NP,0,0) == old(r.Body) && calls(HC) == 1 && arg(HC,0,0) == ret(NP,0,0) && result == ret(HC,0,0) && r.Body == boxof(ret(NP,0,0))
